@@ -25,6 +25,12 @@ BUF = "babylon::LogStreamBuffer"
 ENTRY = "babylon::LogEntry"
 
 
+DEPENDS = {
+    "C01": "committed entries and free pages travel through ConcurrentBoundedQueue",
+    "C02": "the writer thread sleeps in the queue's pop",
+    "C17": "log pages come from and go back to a PageAllocator",
+}
+
 def units(tier):
     return [lib("logging/log_entry.cpp"), lib("logging/async_file_appender.cpp")]
 
